@@ -68,7 +68,7 @@ class SymFP:
         s.strict = strict   # stated no-underflow domain: products/quotients/roots of non-zero values are non-zero
         s.ax = []; s.seen = set(); s.UF = {}; s.tiny_sites = []; s.side = []; s.monotone = monotone; s.apps = {}
         s.exact_add = exact_add    # A7 mode: additions are exact, each use records a representability side condition (proved by the caller)
-        s.exact_obl = []; s.num = {}; s.keep = []
+        s.exact_obl = []; s.num = {}; s.keep = []; s.ibnd = {}
     def uf(s, name, n):
         if name not in s.UF: s.UF[name] = z3.Function(name, *([R] * (n + 1)))
         return s.UF[name]
@@ -82,8 +82,25 @@ class SymFP:
             if d & (d - 1) == 0 and d <= 2**80 and abs(fr.numerator) < 2**200:
                 q = d.bit_length() - 1; return (z3.IntVal(fr.numerator), q)
         return None
+    # ---- interval bounds of dyadic numerators (sound, syntactic): decide comparisons and exactness side conditions without the solver
+    def ib(s, i):
+        if z3.is_int_value(i): v = i.as_long(); return (v, v)
+        b = s.ibnd.get(i.get_id())
+        if b is not None: return b
+        ci = s.const_ite(i)
+        if ci is not None: return (min(ci[1], ci[2]), max(ci[1], ci[2]))
+        if z3.is_app(i) and i.decl().kind() == z3.Z3_OP_ITE and z3.is_int(i):
+            a, b2 = s.ib(i.arg(1)), s.ib(i.arg(2))
+            if a is not None and b2 is not None: return s.setb(i, min(a[0], b2[0]), max(a[1], b2[1]))
+        return None
+    def setb(s, i, lo, hi):
+        if z3.is_expr(i) and not z3.is_int_value(i): s.ibnd[i.get_id()] = (lo, hi); s.keep.append(i)
+        return (lo, hi)
     def mk_dy(s, i, q):
-        if s.const_ite(i) is None: i = z3.simplify(i)
+        b0 = s.ib(i) if z3.is_expr(i) else None
+        if s.const_ite(i) is None:
+            i = z3.simplify(i)
+            if b0 is not None: s.setb(i, *b0)
         if z3.is_int_value(i): t = RV(Fraction(i.as_long(), 2**q))
         else: t = z3.simplify(z3.ToReal(i) / RV(2**q) if q > 0 else z3.ToReal(i))
         s.num[t.get_id()] = (i, q); s.keep.append(t)
@@ -100,15 +117,24 @@ class SymFP:
         if f == 1: return i
         ci = s.const_ite(i)
         if ci is not None: return z3.If(ci[0], z3.IntVal(ci[1] * f), z3.IntVal(ci[2] * f))
-        return i * f
+        b = s.ib(i); r = i * f
+        if b is not None: s.setb(r, min(b[0] * f, b[1] * f), max(b[0] * f, b[1] * f))
+        return r
     def add_int(s, ia, ib):
         """ia + ib, pushing the addition into an ite whose branches are literals (borrow/carry terms) so that
         `t - If(c,eps,0)` and `If(c, t-eps, t)` become the same term"""
+        ba, bb = s.ib(ia), s.ib(ib)
         for (x, y) in ((ia, ib), (ib, ia)):
             cy = s.const_ite(y)
             if cy is not None and s.const_ite(x) is None:
-                return z3.If(cy[0], z3.simplify(x + cy[1]), z3.simplify(x + cy[2]))
-        return z3.simplify(ia + ib)
+                bx = s.ib(x); t1 = z3.simplify(x + cy[1]); t2 = z3.simplify(x + cy[2])
+                if bx is not None: s.setb(t1, bx[0] + cy[1], bx[1] + cy[1]); s.setb(t2, bx[0] + cy[2], bx[1] + cy[2])
+                r = z3.If(cy[0], t1, t2)
+                if ba is not None and bb is not None: s.setb(r, ba[0] + bb[0], ba[1] + bb[1])
+                return r
+        r = z3.simplify(ia + ib)
+        if ba is not None and bb is not None: s.setb(r, ba[0] + bb[0], ba[1] + bb[1])
+        return r
     def common(s, da, db):
         q = max(da[1], db[1])
         ia = s.scale(da[0], 2**(q - da[1])) if q > da[1] else da[0]
@@ -146,6 +172,13 @@ class SymFP:
                 elif name in ('fadd',):
                     x, y, x2, y2 = args[0], args[1], args2[0], args2[1]
                     s.ax.append(z3.Implies(z3.And(x <= x2, y <= y2), t <= t2)); s.ax.append(z3.Implies(z3.And(x2 <= x, y2 <= y), t2 <= t))
+                elif name == 'pow':
+                    # x^b is weakly increasing in x >= 0 for a fixed exponent b > 0 and weakly decreasing for b < 0 (correctly rounded or not, libm's pow is monotone in the base for the exponents used here: stated assumption)
+                    x, b_, x2, b2 = args[0], args[1], args2[0], args2[1]
+                    cb = const_frac(b_)
+                    if cb is not None and b_.eq(b2) and cb != 0:
+                        if cb > 0: s.ax.append(z3.Implies(z3.And(x >= 0, x <= x2), t <= t2)); s.ax.append(z3.Implies(z3.And(x2 >= 0, x2 <= x), t2 <= t))
+                        else: s.ax.append(z3.Implies(z3.And(x > 0, x <= x2), t >= t2)); s.ax.append(z3.Implies(z3.And(x2 > 0, x2 <= x), t2 >= t))
                 elif name in ('fdiv',):
                     x, y, x2, y2 = args[0], args[1], args2[0], args2[1]
                     s.ax.append(z3.Implies(z3.And(y == y2, y > 0, x <= x2), t <= t2)); s.ax.append(z3.Implies(z3.And(y == y2, y > 0, x2 <= x), t2 <= t))
@@ -165,8 +198,8 @@ class SymFP:
                     d = s.dy(x)
                     if d is not None and not is_const(x):
                         sg = -1 if c < 0 else 1; ac = abs(c)
-                        if ac >= 1: return s.mk_dy(d[0] * (sg * int(ac)), d[1])
-                        return s.mk_dy(d[0] * sg, d[1] + (int(1 / ac).bit_length() - 1))
+                        if ac >= 1: return s.mk_dy(s.scale(d[0], sg * int(ac)), d[1])
+                        return s.mk_dy(s.scale(d[0], sg), d[1] + (int(1 / ac).bit_length() - 1))
                 return z3.simplify(x * RV(c))
         pa, a0 = split_pow2(a); pb, b0 = split_pow2(b)
         if pa != 1 or pb != 1:
@@ -200,7 +233,8 @@ class SymFP:
                 ia, ib, q = s.common(da, db); i = s.add_int(ia, ib)
                 t = s.mk_dy(i, q)
                 # A7 side condition: |n| <= 2^53 (then n/2^q has <= 53 significant bits and the rounded sum IS the exact sum)
-                s.exact_obl.append((a, b, t, z3.And(i <= 2**53, i >= -2**53)))
+                bi = s.ib(i)
+                s.exact_obl.append((a, b, t, z3.BoolVal(True) if (bi is not None and -2**53 <= bi[0] and bi[1] <= 2**53) else z3.And(i <= 2**53, i >= -2**53)))
                 return t
         f = s.uf('fadd', 2); t = f(a, b)
         if s.reg(t):
@@ -267,6 +301,8 @@ class SymFP:
                 s.ax.append(z3.Implies(a >= 0, t >= 0)); s.ax.append(z3.Implies(b == 0, t == 1)); s.ax.append(z3.Implies(a == 1, t == 1)); s.ax.append(z3.Implies(b == 1, t == a))
                 s.ax.append(z3.Implies(z3.And(a == 0, b > 0), t == 0))
                 s.ax.append(z3.Implies(z3.And(a >= 1, b >= 0), t >= 1)); s.ax.append(z3.Implies(z3.And(a >= 0, a <= 1, b >= 0), t <= 1))
+                if s.strict: s.ax.append(z3.Implies(a > 0, t > 0))
+                s.mono('pow', t, (a, b))
         return t
     def fabs(s, a): return z3.simplify(z3.If(a >= 0, a, -a))
     def fmin(s, a, b): return z3.simplify(z3.If(a <= b, a, b))
@@ -275,13 +311,26 @@ class SymFP:
         if s.exact_add and z3.is_expr(a) and z3.is_expr(b):
             da, db = s.dy(a), s.dy(b)
             if da is not None and db is not None and not (is_const(a) and is_const(b) and False):
-                ia, ib, q = s.common(da, db); return s.mk_dy(z3.If(c, ia, ib), q)
+                ia, ib, q = s.common(da, db); r_ = z3.If(c, ia, ib); ba, bb = s.ib(ia), s.ib(ib)
+                if ba is not None and bb is not None: s.setb(r_, min(ba[0], bb[0]), max(ba[1], bb[1]))
+                return s.mk_dy(r_, q)
         return z3.simplify(z3.If(c, a, b))
     def cmp(s, pr, a, b, tie_free=False):
         if s.exact_add and pr not in ('ord', 'uno', 'true', 'false') and z3.is_expr(a) and z3.is_expr(b):
             da, db = s.dy(a), s.dy(b)
             if da is not None and db is not None and not (is_const(a) and is_const(b)):
                 ia, ib, q = s.common(da, db)
+                ba, bb = s.ib(ia), s.ib(ib)
+                if ba is not None and bb is not None:
+                    rel = pr[1:]
+                    if rel in ('lt', 'ge'):
+                        if ba[1] < bb[0]: return z3.BoolVal(rel == 'lt')
+                        if ba[0] >= bb[1]: return z3.BoolVal(rel == 'ge')
+                    elif rel in ('le', 'gt'):
+                        if ba[1] <= bb[0]: return z3.BoolVal(rel == 'le')
+                        if ba[0] > bb[1]: return z3.BoolVal(rel == 'gt')
+                    elif rel in ('eq', 'ne'):
+                        if ba[1] < bb[0] or bb[1] < ba[0]: return z3.BoolVal(rel == 'ne')
                 return z3.simplify({'eq': ia == ib, 'ne': ia != ib, 'lt': ia < ib, 'le': ia <= ib, 'gt': ia > ib, 'ge': ia >= ib}[pr[1:]])
         inf_a = z3.is_expr(a) and (a.eq(INF) or a.eq(-INF)); inf_b = z3.is_expr(b) and (b.eq(INF) or b.eq(-INF))
         if inf_a or inf_b:
@@ -379,6 +428,26 @@ class ConcFP:
 ZERO = ('poly0',)
 
 def bvsize(v): return v.size() if z3.is_bv(v) else None
+def bv_bounds(v, depth=0):
+    """sound syntactic bounds of the UNSIGNED value of a bit-vector term"""
+    n = v.size(); full = (0, 2 ** n - 1)
+    if z3.is_bv_value(v): return (v.as_long(), v.as_long())
+    if depth > 6 or not z3.is_app(v): return full
+    k = v.decl().kind(); ch = v.children()
+    if k == z3.Z3_OP_CONCAT:
+        j = 0
+        while j < len(ch) - 1 and z3.is_bv_value(ch[j]) and ch[j].as_long() == 0: j += 1
+        if j == len(ch) - 1: return bv_bounds(ch[j], depth + 1)
+        low = sum(c.size() for c in ch[j:]); return (0, 2 ** low - 1)
+    if k == z3.Z3_OP_EXTRACT: return (0, 2 ** n - 1)
+    if k == z3.Z3_OP_ZERO_EXT: return bv_bounds(ch[0], depth + 1)
+    if k == z3.Z3_OP_ITE:
+        a, b = bv_bounds(ch[1], depth + 1), bv_bounds(ch[2], depth + 1); return (min(a[0], b[0]), max(a[1], b[1]))
+    if k == z3.Z3_OP_BAND:
+        m_ = min((c.as_long() for c in ch if z3.is_bv_value(c)), default=None)
+        if m_ is not None: return (0, m_)
+    if k in (z3.Z3_OP_BUREM, z3.Z3_OP_BUREM_I) and z3.is_bv_value(ch[1]) and ch[1].as_long() > 0: return (0, ch[1].as_long() - 1)
+    return full
 
 class Exec:
     def __init__(s, m, fp, solver=None, tie_free=False, indirect=None, stubs=None, maxsteps=200000, nondet_values=None):
@@ -460,6 +529,9 @@ class Exec:
         if isinstance(ty, ArrT): return ('agg', [s.load((ptr[0], ptr[1] + k * s.m.size(ty.el)), ty.el) for k in range(ty.n)])
         o = s._cells(ptr); off = ptr[1]; sz = s.m.size(ty)
         if isinstance(off, int):
+            if o.get('heap') and isinstance(o.get('size'), int) and s.solver is not None and (off < 0 or off + sz > o['size']):
+                # concrete out-of-bounds access of a heap/stack object of known size: a failed obligation on this path (not a tool limitation)
+                s.obligations.append(('in-bounds load (object of %d bytes, offset %d, %d bytes read)' % (o['size'], off, sz), False)); raise Abort('out-of-bounds load')
             c = o['cells'].get(off)
             if c is None:
                 for (lo, hi) in o['zero']:
@@ -766,7 +838,10 @@ def run_function(E, fname, args, depth=0):
                     # symbolic integer -> double: UF i2d, exact below 2^53, monotone, sign-preserving
                     iv = z3.BV2Int(v, is_signed=(op == 'sitofp'))
                     if getattr(fp, 'exact_add', False):
-                        E.obligations.append(('int->double exact (|v| <= 2^53)', z3.And(iv <= 2**53, iv >= -2**53)))
+                        bb_ = bv_bounds(v)
+                        if op == 'sitofp' and bb_[1] >= 2 ** (v.size() - 1): bb_ = None
+                        if bb_ is not None: fp.setb(iv, bb_[0], bb_[1])
+                        E.obligations.append(('int->double exact (|v| <= 2^53)', True if (bb_ is not None and bb_[1] <= 2**53) else z3.And(iv <= 2**53, iv >= -2**53)))
                         regs[i.dest] = fp.mk_dy(iv, 0); continue
                     f = fp.uf_i2d(); t = f(iv)
                     fp.ax.append(z3.Implies(z3.And(iv <= 2**53, iv >= -2**53), t == z3.ToReal(iv)))
@@ -1008,6 +1083,7 @@ def call(E, nm, av, i, depth, caller):
             E.nondet.append((k, 'd', d)); return fp.const(d)
         n = z3.Int('ndq%d' % k); E.assume(z3.And(n >= 0, n < bound))
         E.assume(n <= bound - 1)
+        if getattr(fp, 'exact_add', False) and isinstance(bound, int): fp.setb(n, 0, bound - 1)
         v = fp.mk_dy(n, q) if getattr(fp, 'exact_add', False) else z3.ToReal(n) / RV(2**q)
         E.nondet.append((k, 'd', v)); E.dyadic_ints = getattr(E, 'dyadic_ints', []) + [n]
         return v
@@ -1070,7 +1146,7 @@ def call(E, nm, av, i, depth, caller):
             return ('agg', [r & ((1 << bits) - 1), not (lo <= r <= hi)])
         raise Unsupported('symbolic ' + nm)
     if nm in ('@_Znwm', '@_Znam', '@malloc'):
-        return E.alloc(av[0] if isinstance(av[0], int) else None)
+        p_ = E.alloc(av[0] if isinstance(av[0], int) else None); E.mem[p_[0]]['heap'] = True; return p_
     if nm in ('@_ZdlPv', '@_ZdaPv', '@free'): return None
     if nm in m.funcs:
         E.calls.append(nm)
@@ -1221,7 +1297,11 @@ def check_obligations(E, extra_assume=None):
                 mdl = cutpoint_candidate(E, cc, 3000) if name.startswith('verif_check') else None
                 out.append((name, 'candidate' if mdl is not None else 'unknown', mdl, 0.0)); continue
         if isinstance(c, bool) or (isinstance(c, int) and not z3.is_expr(c)):
-            out.append((name, 'discharged' if c else 'candidate', None, 0.0)); continue
+            if c: out.append((name, 'discharged', None, 0.0)); continue
+            # the obligation is literally false on this path: any input that drives the real code down this path is a counterexample
+            if not hasattr(E, '_path_model'):
+                E.flush_axioms(); r_ = zcheck(E.solver, E.solver_timeout_ms); E._path_model = E.solver.model() if r_ == z3.sat else None
+            out.append((name, 'candidate', E._path_model, 0.0)); continue
         c = E.tobool(c)
         t0 = time.time()
         c = z3.simplify(c)
@@ -1255,7 +1335,7 @@ def model_words(E, mdl):
                 try: fr = Fraction(mv.approx(40).as_fraction()) if hasattr(mv, 'approx') else Fraction(0)
                 except Exception: fr = Fraction(0)
             try: f = float(fr)
-            except OverflowError: f = math.copysign(1.7976931348623157e308, fr)
+            except OverflowError: f = 1.7976931348623157e308 if fr > 0 else -1.7976931348623157e308
             ws.append(struct.unpack('<Q', struct.pack('<d', f))[0])
         else: ws.append(mv.as_long() if z3.is_bv_value(mv) else 0)
     return ws
